@@ -255,6 +255,53 @@ func resolve(tx *bolt.Tx, path []string) (*bolt.Bucket, bool) {
 	return b, b != nil
 }
 
+// ApplyOpNoModel issues the API call of an op without any oracle (used by
+// the free-running race arm, where results depend on the real schedule).
+func (e *Exec) ApplyOpNoModel(tx *bolt.Tx, op Op, writable bool) {
+	rb, ok := resolve(tx, op.Path)
+	if !ok {
+		return
+	}
+	isRoot := len(op.Path) == 0
+	key := MkKey(op.Key, op.Pad)
+	switch op.Kind {
+	case "put":
+		if !isRoot && writable {
+			_ = rb.Put(key, MkVal(op.VLen, op.VTag))
+		}
+	case "get":
+		if !isRoot {
+			_ = rb.Get(key)
+		}
+	case "del":
+		if !isRoot && writable {
+			_ = rb.Delete(key)
+		}
+	case "mkb", "mkbi":
+		if writable && len(key) > 0 {
+			if isRoot {
+				_, _ = tx.CreateBucketIfNotExists(key)
+			} else {
+				_, _ = rb.CreateBucketIfNotExists(key)
+			}
+		}
+	case "seq":
+		if !isRoot {
+			_ = rb.Sequence()
+		}
+	case "nextseq":
+		if !isRoot && writable {
+			_, _ = rb.NextSequence()
+		}
+	case "foreach", "cursor":
+		if isRoot {
+			_ = tx.ForEach(func(name []byte, b *bolt.Bucket) error { return nil })
+		} else {
+			_ = rb.ForEach(func(k, v []byte) error { return nil })
+		}
+	}
+}
+
 // ApplyOp applies one op to the real transaction and to the working model w,
 // comparing every result.
 func (e *Exec) ApplyOp(tx *bolt.Tx, w *model.Bucket, op Op, writable bool) {
